@@ -19,7 +19,7 @@ static void jstr(FILE *f, const char *s)
   fputc('"', f);
   for (const unsigned char *c = (const unsigned char *) s; *c; c++) {
     if (*c == '"' || *c == '\\') fprintf(f, "\\%c", *c);
-    else if (*c < 0x20 || *c >= 0x7f) fprintf(f, "\\u%04x", *c);
+    else if (*c < 0x20 || *c >= 0x7f || *c == '%') fprintf(f, "%%%02X", *c);   /* the scripts' %XX convention (json.h) */
     else fputc(*c, f);
   }
   fputc('"', f);
